@@ -233,6 +233,11 @@ pub fn run(ctx: &mut Ctx) {
             ctx.note("stopped early after more than 40 violations in this shard");
             break;
         }
+        // (every inconclusive pool run has cost a 30 s watchdog or a 15 s guard)
+        if ctx.rep.inconclusive > 24 {
+            ctx.note("stopped early after more than 24 inconclusive pool runs in this shard");
+            break;
+        }
         let mut r = ctx.rng_global(10, t);
         let nconn = if ctx.miri() { 3 } else { 10 + r.usize(if ctx.quick() { 60 } else { 190 }) };
         let (_conns, trace) = gen_trace(&mut r, nconn, t * 256);
